@@ -1,0 +1,123 @@
+//go:build verif
+
+// Contracts for the delivery side of protocol_v2.go: protocolV2.messagePump (the per-connection select
+// loop), SendMessage, Send and clientV2.Flush (C03, C01, C02), checked by nsqvc. Comment-only file.
+
+package nsqd
+
+// ---- ghosts of the delivery protocol -----------------------------------------------------------
+// lReadyFor / lReady : connection and verdict of the most recent IsReadyForMessages (set by its contract);
+//                      the verdict is CONSUMED by SendMessage (reset to false), so one readiness check
+//                      pays for at most one delivery.
+// lSift*             : arguments of the most recent Channel.StartInFlightTimeout; consumed by SendMessage.
+// lSendingFor        : connection of the most recent clientV2.SendingMessage; consumed by SendMessage.
+// lSends             : number of SendMessage calls; lWatchSends those for lWatchMsg.
+// lWatchMsg          : never assigned = an arbitrary message (a statement about it is one about every message).
+// lSendCalls/lSendFrame/lSendClient: number of protocolV2.Send calls, frame type and connection of the last one.
+// lFlushes           : number of clientV2.Flush calls.
+//@ ghost lReadyFor *clientV2
+//@ ghost lReady bool
+//@ ghost lSiftMsg *Message
+//@ ghost lSiftChan *Channel
+//@ ghost lSiftClient int64
+//@ ghost lSiftTimeout int
+//@ ghost lSendingFor *clientV2
+//@ ghost lSends int
+//@ ghost lWatchMsg *Message
+//@ ghost lWatchSends int
+//@ ghost lSendCalls int
+//@ ghost lSendFrame int32
+//@ ghost lSendClient *clientV2
+//@ ghost lFlushes int
+//@ ghost lSendErr error
+
+// Call protocol (newClientV2 with the connection accepted by the TCP listener): the connection and its
+// buffered writer exist.
+//@ pred lConnOK(c *clientV2) := c != nil && c.Conn != nil && c.Writer != nil
+
+//@ fn lWrapU16(x int) int := fmod(x, 65536)
+
+// Flush: arms the write deadline and flushes the buffered writer (and the deflate writer). No modelled
+// nsqd state changes; the call is counted.
+//@ func (c *clientV2) Flush() error
+//@   props C03
+//@   nochan
+//@   requires lConnOK(c)
+//@   modifies lastNow, wdlConn, wdlAt, lFlushes
+//@   onreturn lFlushes := lFlushes + 1
+
+// Send: one frame to this connection's writer. Message frames stay in the output buffer (no Flush);
+// every other frame is flushed unless writing it failed.
+//@ func (p *protocolV2) Send(client *clientV2, frameType int32, data []byte) error
+//@   props C03 C09
+//@   nochan
+//@   requires lConnOK(client)
+//@   ensures[messages-stay-buffered] frameType == frameTypeMessage ==> lFlushes == old(lFlushes)
+//@   ensures[responses-flushed] frameType != frameTypeMessage && wErrs == old(wErrs) ==> lFlushes == old(lFlushes) + 1
+//@   ensures[write-error-returned] wErrs != old(wErrs) ==> result != nil && lFlushes == old(lFlushes)
+//@   ensures[message-ok] frameType == frameTypeMessage && wErrs == old(wErrs) ==> result == nil
+//@   modifies wN, wOut, wCalls, wErrs, wLastErr, wForeign, lastNow, wdlConn, wdlAt, lFlushes, lSendCalls, lSendFrame, lSendClient, lSendErr
+//@   onreturn lSendCalls := lSendCalls + 1
+//@   onreturn lSendFrame := frameType
+//@   onreturn lSendClient := client
+//@   onreturn lSendErr := result
+
+// bufferPoolGet / bufferPoolPut wrap a sync.Pool of *bytes.Buffer (pool New never returns nil).
+//@ func bufferPoolGet() *bytes.Buffer
+//@   trusted
+//@   nochan
+//@   ensures result != nil
+//@   modifies
+//@ func bufferPoolPut(b *bytes.Buffer)
+//@   trusted
+//@   nochan
+//@   modifies
+
+// SendMessage: the call-order clauses of the delivery pump are its preconditions.
+//  [deliver-guard]          the most recent readiness check was for this connection, answered true and has
+//                           not been used for another delivery (C03);
+//  [in-flight-before-send]  this very message has been registered in flight on the connection's channel,
+//                           for this connection, since the last delivery (C01/C02: a message on the wire is
+//                           always covered by a timeout);
+//  [counted-before-send]    the connection's in-flight counter has been bumped since the last delivery (C03).
+//@ func (p *protocolV2) SendMessage(client *clientV2, msg *Message) error
+//@   props C03 C01 C02
+//@   nochan
+//@   requires p != nil && p.nsqd != nil && lConnOK(client) && msg != nil
+//@   requires[deliver-guard] lReady && lReadyFor == client
+//@   requires[in-flight-before-send] lSiftMsg == msg && lSiftClient == client.ID && lSiftChan == client.Channel
+//@   requires[counted-before-send] lSendingFor == client
+//@   ensures[message-frame] result == nil ==> lSendCalls == old(lSendCalls) + 1 && lSendFrame == frameTypeMessage && lSendClient == client
+//@   ensures[not-flushed] lFlushes == old(lFlushes)
+//@   ensures[message-kept] msg.Attempts == old(msg.Attempts) && msg.Timestamp == old(msg.Timestamp) && msg.Body == old(msg.Body)
+//@   modifies wN, wOut, wCalls, wErrs, wLastErr, wForeign, elems(byte), lastNow, wdlConn, wdlAt, lFlushes, lSendCalls, lSendFrame, lSendClient, lSendErr,
+//@        lReady, lSiftMsg, lSendingFor, lSends, lWatchSends
+//@   onreturn lReady := false
+//@   onreturn lSiftMsg := nil
+//@   onreturn lSendingFor := nil
+//@   onreturn lSends := lSends + 1
+//@   onreturn lWatchSends := lWatchSends + (msg == lWatchMsg ? 1 : 0)
+
+// Reads the experiment list of an Options value.
+//@ func (o Options) HasExperiment(e Experiment) bool
+//@   props C03
+//@   nochan
+//@   modifies
+
+// ---- the delivery pump ----------------------------------------------------------------------------
+//@ func (p *protocolV2) messagePump(client *clientV2, startedChan chan bool)
+//@   props C03 C01 C02
+//@   requires p != nil && p.nsqd != nil && lConnOK(client)
+//   typing fact (Attempts is a uint16; the engine assumes type ranges only for values the code loads)
+//@   requires[typing] lWatchMsg != nil ==> 0 <= lWatchMsg.Attempts && lWatchMsg.Attempts < 65536
+//@   modifies Message.Attempts, Message.clientID, Message.deliveryTS, Message.pri, Message.index, Channel.zoneLocalMsgCount, Channel.regionLocalMsgCount, Channel.globalMsgCount,
+//@        Channel.inFlightMessages, Channel.inFlightPQ, mapstore(map[MessageID]*Message), elems(*Message), deref(inFlightPqueue), elems(byte),
+//@        client.MessageCount, client.InFlightCount, lastNow, lastPushed, wdlConn, wdlAt, wN, wOut, wCalls, wErrs, wLastErr, wForeign,
+//@        lFlushes, lSendCalls, lSendFrame, lSendClient, lSendErr, lReady, lReadyFor, lSiftMsg, lSiftChan, lSiftClient, lSiftTimeout, lSendingFor, lSends, lWatchSends
+//@   loop 0
+//@     assume subChannel != nil ==> subChannel == client.Channel && subChannel.backend != nil
+//@     invariant[tickers] outputBufferTicker != nil && heartbeatTicker != nil
+//@     invariant[sub-once] subChannel != nil ==> subEventChan == nil
+//@     invariant[chans-nil-before-sub] subChannel == nil ==> memoryMsgChan == nil && backendMsgChan == nil && zoneMsgChan == nil && regionMsgChan == nil
+//@     invariant[attempts] lWatchMsg != nil ==> lWatchMsg.Attempts == lWrapU16(old(lWatchMsg.Attempts) + lWatchSends - old(lWatchSends))
+//@     invariant[sends-counted] lSends >= old(lSends) && lWatchSends >= old(lWatchSends)
